@@ -577,7 +577,16 @@ pub fn run(tier: Tier) -> i32 {
             for dev in devices {
                 let devline = if dev.is_empty() { String::new() } else { format!(".device {}\n", dev) };
                 let s_lit = format!("{}{}\n", devline, literal);
-                let s_ali = format!("{}.def {}{} = r{}\n{}\n", devline, c04::ALIAS, n, n, alias);
+                // the alias in three spellings: as defined; defined in capitals and used in
+                // lower case; defined in lower case and used in mixed case (no device: all three)
+                let name = format!("{}{}", c04::ALIAS, n);
+                let spelling = if dev.is_empty() { (pos + n.len() + mnem.len()) % 3 } else { 0 };
+                let (def_name, use_line) = match spelling {
+                    0 => (name.clone(), alias.clone()),
+                    1 => (name.to_uppercase(), alias.clone()),
+                    _ => (name.clone(), alias.replace(&name, &format!("A{}", &name[1..]).replace("_q", "_Q"))),
+                };
+                let s_ali = format!("{}.def {} = r{}\n{}\n", devline, def_name, n, use_line);
                 let (o1, o2) = (sut::build_str(&s_lit), sut::build_str(&s_ali));
                 n_alias_pairs.fetch_add(1, Ordering::Relaxed);
                 let same = match (&o1, &o2) {
@@ -595,6 +604,45 @@ pub fn run(tier: Tier) -> i32 {
             }
         });
     }
+    // a reference is a reference wherever it stands in an expression: an undefined name on the
+    // side of `&&` / `||` that does not decide the value, inside a function, behind a unary operator
+    let n_undef_expr = AtomicU64::new(0);
+    {
+        let wrappers = ["0 && {}", "1 || {}", "{} && 0", "{} || 1", "0 * {}", "low({}) & 0", "-{} * 0", "!{} && 0", "(1 || {}) + 1", "2 > 1 || {} > 3"];
+        let defs: [(&str, &str); 5] = [("label", "u_name: nop\n"), ("equ", ".equ u_name = 4\n"), ("set", ".set u_name = 4\n"), ("late-equ", ""), ("late-label", "")];
+        let uses = ["ldi r16, {}\n", ".db {}\n", ".dw 1, {}\n", ".set other_v = {}\n", ".if {}\nnop\n.endif\n", ".org 8 + ({})\nnop\n"];
+        for w in wrappers {
+            for (dk, dtext) in defs {
+                for u in uses {
+                    // conditions and .org are evaluated while parsing: later definitions do not count there
+                    let parse_time = u.starts_with(".if") || u.starts_with(".org");
+                    let late = match dk {
+                        "late-equ" => ".equ u_name = 4\n",
+                        "late-label" => "u_name: nop\n",
+                        _ => "",
+                    };
+                    if parse_time && !late.is_empty() {
+                        continue;
+                    }
+                    let line = u.replace("{}", &w.replace("{}", "u_name"));
+                    let defined = format!("{}{}{}", dtext, line, late);
+                    let undefined = line.clone();
+                    n_undef_expr.fetch_add(2, Ordering::Relaxed);
+                    // .if / .org with a label or a .set variable: labels and variables get their values
+                    // in later passes, so only .equ definitions count there
+                    let defined_must_build = !(parse_time && dk != "equ");
+                    let o1 = sut::build_str(&defined);
+                    if defined_must_build && !matches!(o1, Outcome::Ok(_)) {
+                        rep.violation(&format!("C10/rejected/defined-name-in-expression/kind={}", dk), || format!("`{}` with u_name defined ({}) must build but: {}", line.trim(), dk, o1.brief()), || json!({"kind": "build_str", "source": defined, "expected": "ok", "observed": o1.to_json()}));
+                    }
+                    let o2 = sut::build_str(&undefined);
+                    if matches!(o2, Outcome::Ok(_)) {
+                        rep.violation(&format!("C10/accepted/undefined-name-in-expression/wrapper={}", w.replace("{}", "N").replace(' ', "")), || format!("`{}`: u_name is defined nowhere, the build must fail but: {}", line.trim(), o2.brief()), || json!({"kind": "build_str", "source": undefined, "expected": "err", "observed": o2.to_json()}));
+                    }
+                }
+            }
+        }
+    }
     rep.guard(n_alias_pairs.load(Ordering::Relaxed) > 5000, "fewer than 5000 alias/register pairs");
     rep.guard(ex.states > 200, "fewer than 200 model states");
     rep.guard(n_ok.load(Ordering::Relaxed) > 1000 && n_err.load(Ordering::Relaxed) > 1000, "need both Ok and Err outcomes");
@@ -606,6 +654,7 @@ pub fn run(tier: Tier) -> i32 {
     rep.assume("every defining and referring occurrence is spelled in an independently chosen letter case (lower, UPPER, Mixed)");
     let coverage = cov(json!({
         "alias_versus_register_pairs": n_alias_pairs.load(Ordering::Relaxed),
+        "names_inside_expressions_programs": n_undef_expr.load(Ordering::Relaxed),
         "states": ex.states,
         "transitions": ex.transitions,
         "traces_validated_against_impl": traces,
